@@ -1051,10 +1051,11 @@ func (val Value) HasElement(elem Value) Value {
 		return unknownResult
 	}
 	noMatchResult := False
-	if !val.IsWhollyKnown() {
+	if !val.IsWhollyKnown() || !elem.IsWhollyKnown() {
 		// If the set has any unknown elements then a failure to find a
 		// known-value elem in it means that we don't know whether the
 		// element is present, rather than that it definitely isn't.
+		// The same is true if the given element itself has unknown parts.
 		noMatchResult = unknownResult
 	}
 	if !ty.ElementType().Equals(elem.Type()) {
